@@ -15,7 +15,11 @@ use core::num::*;
 use core::ops::*;
 use epserde::prelude::*;
 use evharness::codec::*;
+use evharness::loaders::*;
 use evharness::obs::*;
+
+#[global_allocator]
+static GLOBAL_ALLOC: evharness::alloc::Counting = evharness::alloc::Counting;
 """
 
 
@@ -298,6 +302,7 @@ def write_gen_workspace(U, cases, gdir, shards=GEN_SHARDS):
             for (tidu, kind) in getattr(c, "cross", []):
                 tu = type_of_tid[tidu]
                 crosses += "\n    cross_case::<%s, %s>(\"%s\", \"%s\", &mk, ops, arena, out);" % (st, rust_ty(U, sertype(U, tu), "'static"), c.cid, tidu)
+            crosses += "\n    load_case::<%s, %s>(\"%s\", &mk, ops, out);" % (st, dt, c.cid)
             body.append("fn case_%s(ops: &[String], arena: &mut Arena, out: &mut String) {\n    %s\n    let mk = || -> %s { %s };\n    run_case::<%s, %s>(\"%s\", &mk, ops, arena, out);%s\n}" % (
                 c.cid, "\n    ".join(cx.lets), st, expr, st, dt, c.cid, crosses))
             arms.append('        "%s" => case_%s(ops, arena, out),' % (c.cid, c.cid))
@@ -308,6 +313,7 @@ def write_gen_workspace(U, cases, gdir, shards=GEN_SHARDS):
     let text = std::fs::read_to_string(path).unwrap();
     let mut arena = Arena::new(1 << 20);
     println!("base {:x}", arena.base());
+    println!("flags {}", flags_obs());
     let mut out = String::new();
     for line in text.lines() {
         let mut it = line.split(' ');
@@ -378,6 +384,8 @@ def run_impl(parts, ops_of, gdir, tdir, tag):
             done = set()
             base = None
             for line in out.splitlines():
+                if line.startswith("flags "):
+                    obs[("_", "flags")] = line.split(" ", 1)[1]
                 if line.startswith("base "):
                     base = int(line.split()[1], 16)
                 elif line.endswith(" done") and line.count(" ") == 1:
@@ -668,6 +676,8 @@ def run_campaign(tier):
         st = c.steps[x.cid]
         ops = ["hdr", "ser", "feed", "cross", "full", "eps:0", "schema:noagain" if si else "schema", "flips", "place",
                "cuts:%d" % st, "rfault:%d" % st, "wfault:%s:%d" % ("noagain" if si else "again", st)]
+        if not si and not getattr(x, "twin_of", None) and (tier != "quick" or x.cid.endswith("v0")):
+            ops.append("load")
         ops.append("tags:" + ",".join(str(n) for n in c.tagc[x.cid]))
         return ops
 
@@ -691,6 +701,8 @@ def run_campaign(tier):
             hu = next((c.hdrs[y.cid] for y in c.cases if y.tid == tidu and y.cid in c.hdrs), None)
             if hu:
                 cr.append("cross:%s:%s:%s:%s" % (b, tidu, hu[0], hu[1]))
+        if (x.cid, "load") in c.iobs:
+            cr.append("load")
         return cr + ["tinfo", "ser", "feed", "full", "eps:" + b, "schema", "wfault:%d" % c.steps[x.cid], "flips:" + b, "place:" + b,
                 "cuts:%s:%d" % (b, c.steps[x.cid]),
                 "tags:%s:%s" % (b, ",".join(str(n) for n in c.tagc[x.cid]))]
